@@ -114,6 +114,10 @@ def rule_blockwise(repo: Repo, rep: Report) -> int:
     else:
         rep.expect(ok, "BLOCKWISE", rm, "Reed-Muller inverse: rows of n symbols, nearest codeword per row, result (*lead, -1), length validated", "every block decoded separately for any leading dimensions", "the Reed-Muller inverse does not keep the (-1, n) / (*lead, -1) block structure")
     n += 1
+    from ..speciallint import lint_chunk_local_index
+
+    if lint_chunk_local_index(rep, rm, "INVERSE-FORM") == 0:
+        rep.ok("INVERSE-FORM", rm, "no chunked nearest-codeword search", "indices refer to the whole codebook", nontrivial=False)
     # nearest-codeword search shape (also C02)
     need = ["cws = msgs @ self.generator_matrix % 2", "dists = diff.sum(dim=2)", "best = dists.argmin(dim=0)", "decoded = msgs[best]", "pred_cw = cws[best]"]
     for t in need:
